@@ -388,6 +388,14 @@ def r13_5(ctx):
                   'is_integer_transform returns Some without testing that %s is an integer (round trip through i32 compared with %s itself): a fractional translation would be truncated by the integer fast path' % (name, name))
 
 
+def _r18_2(ctx):
+    import props.c18 as c18
+    c18.r18_2(ctx)
+
+
+_r18_2.__name__ = 'r18_2'
+
+
 def run(ctx):
     import engine
-    engine.run_rules(ctx, [r13_1, r13_2, r13_3, r13_4, r13_5])
+    engine.run_rules(ctx, [r13_1, r13_2, r13_3, r13_4, r13_5, dt.r02_6, _r18_2])
